@@ -326,6 +326,13 @@ BuiltinExpression * BuiltinExpression::parse(Parser& p, Context& ctx)
   return nullptr;
 }
 
+Value& BuiltinExpression::handback(Context& ctx, Value& val)
+{
+  if (val.lvalue())
+    return ctx.allocate(val.clone());
+  return val;
+}
+
 void BuiltinExpression::assertClosedFunction(Parser& p, Context& ctx, FUNCTION fc)
 {
   TokenPtr t = p.pop();
